@@ -5,6 +5,7 @@
 import Hw.Io.XmlTree
 import Hw.Io.XmlObjLemmas
 import Hw.Io.Base64Lemmas
+import Hw.Io.XmlLemmas
 namespace Hw.XmlTree
 open Hw Hw.Topo Hw.XmlObj
 
@@ -417,4 +418,95 @@ theorem importTree_exportTree (t : Tree) (hv : TreeValid { root := true } t = tr
   unfold importTree
   rw [if_pos (exportTree_tag true t)]
   exact importObj_exportTree { root := true } t hv
+
+/-! ### start tags as bytes -/
+
+mutual
+def ElemOk : Elem → Prop
+  | .mk _ a _ ks => AllOk a ∧ ElemsOk ks
+def ElemsOk : List Elem → Prop
+  | [] => True
+  | e :: es => ElemOk e ∧ ElemsOk es
+end
+
+mutual
+theorem rescan_ok : ∀ e : Elem, ElemOk e → rescan e = e
+  | .mk t a c ks, h => by
+    rw [ElemOk] at h
+    rw [rescan, Xml.scanAttrs_renderAttrs a _ (Nat.lt_succ_self _) h.1, rescanList_ok ks h.2]
+theorem rescanList_ok : ∀ es : List Elem, ElemsOk es → rescanList es = es
+  | [], _ => by rw [rescanList]
+  | e :: es, h => by
+    rw [ElemsOk] at h
+    rw [rescanList, rescan_ok e h.1, rescanList_ok es h.2]
+end
+
+theorem ElemsOk_append : ∀ (l1 l2 : List Elem), ElemsOk l1 → ElemsOk l2 → ElemsOk (l1 ++ l2)
+  | [], _, _, h2 => h2
+  | e :: es, l2, h1, h2 => by
+    rw [ElemsOk] at h1
+    rw [List.cons_append, ElemsOk]; exact ⟨h1.1, ElemsOk_append es l2 h1.2 h2⟩
+
+theorem ElemsOk_map {α : Type} (f : α → Elem) : ∀ l : List α, (∀ x ∈ l, ElemOk (f x)) → ElemsOk (l.map f)
+  | [], _ => by rw [List.map_nil, ElemsOk]; trivial
+  | x :: xs, h => by
+    rw [List.map_cons, ElemsOk]
+    exact ⟨h x (List.mem_cons_self ..), ElemsOk_map f xs (fun y hy => h y (List.mem_cons_of_mem _ hy))⟩
+
+theorem ptElem_ok (p : Nat × Nat) : ElemOk (ptElem p) := by
+  rw [ptElem, ElemOk, ElemsOk]
+  exact ⟨ok_cons (mk_ok _ _ (by decide) (nz_dec _)) (ok_cons (mk_ok _ _ (by decide) (nz_dec _)) ok_nil), trivial⟩
+
+theorem infoElem_ok (p : Bytes × Bytes) : ElemOk (infoElem p) := by
+  rw [infoElem, ElemOk, ElemsOk]
+  exact ⟨exportInfo_ok p.1 p.2, trivial⟩
+
+theorem nz_of_allValid (s : Bytes) (h : allValid s = true) : NZ s := by
+  intro x hx
+  have := List.all_eq_true.mp h x hx
+  intro h0; subst h0; revert this; decide
+
+theorem udElem_ok (u : UData) (h : udExportable u = true) : ElemOk (udElem u) := by
+  rw [udElem, ElemOk, ElemsOk]
+  refine ⟨ok_append (ok_append ?_ (ok_cons (mk_ok _ _ (by decide) (nz_dec _)) ok_nil)) ?_, trivial⟩
+  · cases hn : u.name with
+    | none => exact ok_nil
+    | some n =>
+      simp only [udExportable, hn, Bool.and_eq_true] at h
+      exact ok_cons (mk_ok _ _ (by decide) (nz_of_allValid n h.1)) ok_nil
+  · exact ok_ite (ok_cons (mk_ok _ _ (by decide) (nz_of_all (by decide))) ok_nil) ok_nil
+
+theorem subElems_ok (d : Node) : ElemsOk (subElems d) := by
+  unfold subElems
+  refine ElemsOk_append _ _ (ElemsOk_append _ _ ?_ (ElemsOk_map _ _ (fun p _ => infoElem_ok p)))
+    (ElemsOk_map _ _ (fun u hu => udElem_ok u (List.mem_filter.mp hu).2))
+  split
+  · exact ElemsOk_map _ _ (fun p _ => ptElem_ok p)
+  · rw [ElemsOk]; trivial
+
+mutual
+theorem exportTree_ok : ∀ (c : Ctx) (t : Tree), TreeValid c t = true → ElemOk (exportTree c.root t)
+  | c, .mk d mem nor io misc, hv => by
+    rw [TreeValid_mk] at hv
+    simp only [Bool.and_eq_true, Bool.not_eq_true'] at hv
+    obtain ⟨⟨⟨⟨⟨⟨⟨⟨⟨⟨hV, _⟩, _⟩, _⟩, _⟩, _⟩, _⟩, vm⟩, vn⟩, vi⟩, vx⟩ := hv
+    rw [exportTree_mk, ElemOk]
+    exact ⟨exportAttrs_ok c d.f hV, ElemsOk_append _ _ (subElems_ok d)
+      (ElemsOk_append _ _ (exportList_ok _ rfl mem vm) (ElemsOk_append _ _ (exportList_ok _ rfl nor vn)
+        (ElemsOk_append _ _ (exportList_ok _ rfl io vi) (exportList_ok _ rfl misc vx))))⟩
+theorem exportList_ok : ∀ (c : Ctx), c.root = false → ∀ (ts : List Tree), ListValid c ts = true → ElemsOk (exportList ts)
+  | _, _, [], _ => by rw [exportList, ElemsOk]; trivial
+  | c, hr, t :: ts, hv => by
+    rw [ListValid_cons, Bool.and_eq_true] at hv
+    have h1 := exportTree_ok c t hv.1
+    rw [hr] at h1
+    rw [exportList, ElemsOk]; exact ⟨h1, exportList_ok c hr ts hv.2⟩
+end
+
+/-- the tree round trip with every start tag taken through bytes -/
+theorem importTree_rescan_exportTree (t : Tree) (hv : TreeValid { root := true } t = true) :
+    importTree (rescan (exportTree true t)) = .ok (normTree t) := by
+  rw [rescan_ok _ (exportTree_ok { root := true } t hv)]
+  exact importTree_exportTree t hv
+
 end Hw.XmlTree
